@@ -28,7 +28,7 @@ def tweak_resize(rng, w, i):
 
 # judged on the implementation's outcome alone (the run must return): the model would have to materialise gigabytes of
 # padding zeros, or is quadratic in the number of table entries (list-based maps) where the real code uses hash maps
-NOT_MODELLED = ("enormous declared length", "many segments in one piece", "metadata fault", "export paths beyond PATH_MAX", "more than 100000 pieces")
+NOT_MODELLED = ("enormous declared length", "many segments in one piece", "metadata fault", "export paths beyond PATH_MAX", "more than 100000 pieces", "names beyond NAME_MAX")
 
 def with_threads(w, n):
     w.threads = n
@@ -58,6 +58,11 @@ def run_worlds(worlds, jobs=None):
             if r.result == "ok" and r.progress_total is not None:
                 if len(r.counters) != r.progress_total or [sum(k) for k in r.counters[-3:]] != list(range(len(r.counters) - len(r.counters[-3:]) + 1, len(r.counters) + 1)):
                     fails += ["c15-sum", "c05-lost-or-extra"]
+            # images that must end up with exactly these bytes (or not at all: every byte the declared one or a zero)
+            for p, truth in getattr(r.world, "expect_content", {}).items():
+                have = r.after_files.get(p)
+                if have is not None and (len(have[0]) != len(truth) or any(x != y and x != 0 for x, y in zip(have[0], truth))):
+                    fails += ["c12-length", "c01-bytes", "c04-lost"]
             if getattr(r.world, "expect_lines", None) is not None and r.result == "ok" and len(r.counters) != r.world.expect_lines:
                 fails += ["c15-sum"]
             answers.append("agree " + ("PROPFAIL:" + ",".join(sorted(set(fails))) if fails else "prop-ok") + " not-modelled")
@@ -452,6 +457,7 @@ PROPS = {
                                     + [W.gen_world_linked_cross_seed(Rng(s, "c04-linked", i)) for i in range(20 if t == "quick" else 400)]
                                     + [W.gen_world_mirrored_export(Rng(s, "c04-mirror", i)) for i in range(12 if t == "quick" else 240)]
                                     + [W.gen_world_many_identical(Rng(s, "c04-ident", i)) for i in range(6 if t == "quick" else 60)]
+                                    + [W.gen_world_name_max(Rng(s, "c04-namemax", i)) for i in range(6 if t == "quick" else 60)]
                                     + fault_worlds(t, s)
                                     + worlds_default(t, s, "c04", 300, 6000, tweak_threads), post=lambda cases: drop_rewritten_under_faults(cases)),
     # C06 at run level: the work list evaluated by a run is the layout — every piece of every torrent, once (the counters' total,
@@ -473,6 +479,8 @@ PROPS = {
                 runner=lambda ws: run_with_cli(ws, 40 if len(ws) <= 1000 else 400), with_bin=True),
     "C12": dict(module="TB.Props.C12", theorems=["C12_path", "C12_only_run", "C12_len", "C12_disjoint"], clauses=["c12-"],
                 worlds=lambda t, s: [W.gen_world_dup_path(Rng(s, "c12-dup", 0))] + [W.gen_world_infohash_prefix_pair(Rng(s, "c12-pair", i)) for i in range(2)]
+                                    + [W.gen_world_truncated_neighbour(Rng(s, "c12-trunc", i)) for i in range(8 if t == "quick" else 80)]
+                                    + [W.gen_world_name_max(Rng(s, "c12-namemax", i)) for i in range(4 if t == "quick" else 40)]
                                     + worlds_default(t, s, "c12", 300, 6000, tweak_threads)
                                     + partial_write_worlds(t, s, "c12-partial")),
     "C14": dict(module="TB.Props.C14", theorems=["C14_abort", "C14_pass2_ops", "C14_noflag"], clauses=["c14-", "c16-"],
@@ -491,6 +499,7 @@ PROPS = {
                 worlds=lambda t, s: [W.gen_world_many_segments(Rng(s, "c16-segs", i), n) for i, n in enumerate([3000, 30000] if t == "quick" else [3000, 30000, 60000])]
                                     + [W.gen_world_short_match(Rng(s, "c16-short", i)) for i in range(6)]
                                     + [W.gen_world_link_length_missing(Rng(s, "c16-lnk", i)) for i in range(8 if t == "quick" else 80)]
+                                    + [W.gen_world_wide_piece(Rng(s, "c16-wide", i)) for i in range(3 if t == "quick" else 30)]
                                     + [W.gen_world_sparse_candidate(Rng(s, "c16-sparse", i)) for i in range(6)]
                                     + [with_threads(W.gen_world_c16(Rng(s, "c16", i), i), [1, 1, 0, 2, 2**64 - 1][(i // 15) % 5]) for i in range(400 if t == "quick" else 8000)],
                 runner=lambda ws: run_with_cli(ws, 66 if len(ws) <= 1000 else 660), with_bin=True),
@@ -777,5 +786,6 @@ PROPS["C05"] = dict(module="TB.Props.C05", theorems=["C05_once", "C05_deadlock_f
                     worlds=lambda t, s: [gen_exec_world(Rng(s, "c05", i), i) for i in range(300 if t == "quick" else 6000)]
                                         + [gen_fs_sched_world(Rng(s, "c05-fs", i), i) for i in range(200 if t == "quick" else 4000)]
                                         + [W.gen_world_same_dir_many_files(Rng(s, "c05-dir", i)) for i in range(24 if t == "quick" else 400)]
-                                        + [with_threads(W.gen_world_c16(Rng(s, "c05-huge", i), 9), [1, 2, 1, 3][i % 4]) for i in range(16 if t == "quick" else 160)],
+                                        + [with_threads(W.gen_world_c16(Rng(s, "c05-huge", i), 9), [1, 2, 1, 3][i % 4]) for i in range(16 if t == "quick" else 160)]
+                                        + [W.gen_world_wide_piece(Rng(s, "c05-wide", i)) for i in range(4 if t == "quick" else 40)],
                     runner=run_exec_cases)
